@@ -26,6 +26,8 @@ theorem specTrace_append (sp : SpecSt) (l1 l2 : List Ev) (h1 : specTrace sp l1 =
 def Ev.quiet : Ev → Bool
   | .execStart _ => false
   | .execEnd _ => false
+  | .opBegin _ => false
+  | .authority _ _ => false
   | _ => true
 
 theorem specNext_quiet (sp : SpecSt) (e : Ev) (h : e.quiet = true) : specNext sp e = sp := by
@@ -49,6 +51,100 @@ theorem executing_upd (s : St) (c : Nat) (x : Chk) (hc : c < s.n) :
   unfold St.executing
   exact sum_upd (fun y => (y.execs : Int)) s c x hc
 
+/-! ### what the specification knows about responsibility -/
+
+theorem getKnown_drop (k : List (Nat × Bool)) (c c' : Nat) :
+    getKnown (dropKnown k c) c' = if c' = c then none else getKnown k c' := by
+  induction k with
+  | nil => simp [dropKnown, getKnown]
+  | cons hd tl ih =>
+    obtain ⟨a, b⟩ := hd
+    simp only [dropKnown]
+    by_cases hac : a = c
+    · simp only [hac, if_true, ih]
+      by_cases hcc : c' = c
+      · simp [hcc]
+      · have : ¬ c = c' := fun h => hcc h.symm
+        simp [hcc, getKnown, this]
+    · simp only [hac, if_false, getKnown, ih]
+      by_cases hcc : c' = c
+      · subst hcc; simp [hac]
+      · simp [hcc]
+
+/-- whatever the specification claims to know about a checkable is true of the model state: its handlers have run
+    (`synced`) and it is schedulable exactly as claimed -/
+def KRel (s : St) (sp : SpecSt) : Prop :=
+  ∀ c b, getKnown sp.known c = some b → (s.chk c).synced = true ∧ (s.chk c).schedulable = b
+
+/-- the checkable whose `active`/`paused` an action writes or whose handler it runs -/
+def Act.authOf : Act → Option Nat
+  | .setActive c _ => some c
+  | .setPaused c _ => some c
+  | .objectHandler c => some c
+  | _ => none
+
+/-- every other action leaves `synced` and `schedulable` of every checkable alone -/
+theorem auth_step (s s' : St) (a : Act) (ha : a.authOf = none) (hs : step s a = some s') :
+    ∀ c, (s'.chk c).synced = (s.chk c).synced ∧ (s'.chk c).schedulable = (s.chk c).schedulable := by
+  have key : ∀ (c : Nat) (x : Chk), (x.synced = (s.chk c).synced ∧ x.schedulable = (s.chk c).schedulable) →
+      ∀ i, ((s.upd c x).chk i).synced = (s.chk i).synced ∧ ((s.upd c x).chk i).schedulable = (s.chk i).schedulable := by
+    intro c x hx i; simp only [St.upd]; split
+    · subst_vars; exact hx
+    · exact ⟨rfl, rfl⟩
+  cases a with
+  | setActive c b => simp [Act.authOf] at ha
+  | setPaused c b => simp [Act.authOf] at ha
+  | objectHandler c => simp [Act.authOf] at ha
+  | setNextCheck c v =>
+    simp only [step] at hs; split at hs <;> simp at hs; subst hs
+    exact key c _ ⟨rfl, rfl⟩
+  | nextCheckChanged c =>
+    simp only [step] at hs; split at hs <;> simp at hs; subst hs
+    exact key c _ (by unfold Chk.nextCheckChanged Chk.schedulable; grind)
+  | force c =>
+    simp only [step] at hs; split at hs <;> simp at hs; subst hs
+    exact key c _ ⟨rfl, rfl⟩
+  | sched c now r e p =>
+    simp only [step] at hs
+    split at hs
+    · split at hs
+      · simp at hs; subst hs; exact key c _ ⟨rfl, rfl⟩
+      · simp at hs; subst hs; exact key c _ ⟨rfl, rfl⟩
+    · simp at hs
+  | helperGuard c =>
+    simp only [step] at hs; split at hs <;> simp at hs; subst hs
+    exact key c _ (by unfold Chk.helperGuard Chk.schedulable; grind)
+  | result c =>
+    simp only [step] at hs; split at hs <;> simp at hs; subst hs
+    exact key c _ ⟨rfl, rfl⟩
+  | spawn c =>
+    simp only [step] at hs; split at hs <;> simp at hs; subst hs
+    exact key c _ ⟨rfl, rfl⟩
+  | pluginInc c =>
+    simp only [step] at hs; split at hs <;> simp at hs; subst hs
+    exact key c _ ⟨rfl, rfl⟩
+  | procExit c =>
+    simp only [step] at hs; split at hs <;> simp at hs; subst hs
+    exact key c _ ⟨rfl, rfl⟩
+  | procResult c =>
+    simp only [step] at hs; split at hs <;> simp at hs; subst hs
+    exact key c _ ⟨rfl, rfl⟩
+  | passiveResult c =>
+    simp only [step] at hs; split at hs <;> simp at hs; subst hs
+    exact key c _ ⟨rfl, rfl⟩
+  | helperDec c =>
+    simp only [step] at hs; split at hs <;> simp at hs; subst hs
+    exact key c _ ⟨rfl, rfl⟩
+  | helperFinish c =>
+    simp only [step] at hs; split at hs <;> simp at hs; subst hs
+    exact key c _ (by unfold Chk.helperFinish Chk.idleInsert Chk.schedulable; grind)
+
+theorem krel_of_auth (s s' : St) (sp : SpecSt) (hk : KRel s sp)
+    (h : ∀ c, (s'.chk c).synced = (s.chk c).synced ∧ (s'.chk c).schedulable = (s.chk c).schedulable) : KRel s' sp := by
+  intro c b hb
+  have := hk c b hb
+  rw [(h c).1, (h c).2]; exact this
+
 /-! ### the simulation relation -/
 
 structure Rel (s : St) (sp : SpecSt) : Prop where
@@ -69,13 +165,22 @@ theorem rel_init (n : Nat) (max : Int) (hm : 0 ≤ max) : Rel (init n max) { max
       | succ k ih => simp only [sumTo, ih]; rfl
     rw [this]
 
-/-- a `loc` observation of an invariant state passes -/
-theorem loc_ok (s : St) (sp : SpecSt) (h : Inv s) (c : Nat) :
+/-- a `loc` observation of an invariant state passes, also against what the specification knows about the checkable -/
+theorem loc_ok (s : St) (sp : SpecSt) (h : Inv s) (hk : KRel s sp) (c : Nat) :
     (locOf s c).quiet = true ∧ specStep sp (locOf s c) = none := by
   refine ⟨rfl, ?_⟩
-  have := (h.1 c).1
+  obtain ⟨h1, h2, _⟩ := h.1 c
   unfold locOf specStep
-  cases hi : (s.chk c).inIdle <;> cases hp : (s.chk c).inPending <;> simp_all
+  cases hkn : getKnown sp.known c with
+  | none =>
+    cases hi : (s.chk c).inIdle <;> cases hp : (s.chk c).inPending <;> simp_all
+  | some b =>
+    obtain ⟨hs1, hs2⟩ := hk c b hkn
+    have h2' := h2 hs1
+    cases b <;> cases hi : (s.chk c).inIdle <;> cases hp : (s.chk c).inPending <;> simp_all
+
+theorem rel_known_irrel (s : St) (sp : SpecSt) (k : List (Nat × Bool)) (h : Rel s sp) : Rel s { sp with known := k } :=
+  ⟨h.inv, h.flight, h.max, h.nodup, h.mem, h.len⟩
 
 /-- an action that changes no `execs` keeps the relation (the specification state does not move) -/
 theorem rel_same_hx (s s' : St) (sp : SpecSt) (a : Act) (h : Rel s sp) (hp : a.isPassive = false)
@@ -140,12 +245,40 @@ theorem rel_exec_end (s : St) (sp : SpecSt) (c : Nat) (x : Chk) (hc : c < s.n) (
       have := h.len
       omega
 
+theorem krel_objectHandler (s : St) (sp : SpecSt) (c : Nat) (hk : KRel s sp) :
+    KRel (s.upd c (s.chk c).objectHandler)
+      { sp with known := (c, ((s.upd c (s.chk c).objectHandler).chk c).schedulable) :: dropKnown sp.known c } := by
+  intro i b hb
+  simp only [getKnown] at hb
+  by_cases hic : c = i
+  · subst hic
+    simp at hb; subst hb
+    refine ⟨?_, rfl⟩
+    simp only [St.upd, if_true]
+    unfold Chk.objectHandler Chk.idleInsert; grind
+  · simp only [hic, if_false, getKnown_drop] at hb
+    have hic' : ¬ i = c := fun h => hic h.symm
+    simp only [hic', if_false] at hb
+    have := hk i b hb
+    simp only [St.upd, hic', if_false]; exact this
+
+theorem krel_write (s : St) (sp : SpecSt) (c : Nat) (x : Chk) (hk : KRel s sp) :
+    KRel (s.upd c x) { sp with known := dropKnown sp.known c } := by
+  intro i b hb
+  simp only [getKnown_drop] at hb
+  by_cases hic : i = c
+  · simp [hic] at hb
+  · simp only [hic, if_false] at hb
+    have := hk i b hb
+    simp only [St.upd, hic, if_false]; exact this
+
 /-- **one step**: the observations of an enabled, non-passive action pass the specification and the relation
     is re-established for the specification state after them. -/
-theorem rel_step (s s' : St) (sp : SpecSt) (a : Act) (h : Rel s sp) (hp : a.isPassive = false)
+theorem rel_step (s s' : St) (sp : SpecSt) (a : Act) (h : Rel s sp) (hk : KRel s sp) (hp : a.isPassive = false)
     (hs : step s a = some s') :
     specTrace sp (obsStep s a s') = none ∧ Rel s' (specRun sp (obsStep s a s')) := by
   have hinv' := inv_step s s' a h.inv hs
+  have hk' : a.authOf = none → KRel s' sp := fun ha => krel_of_auth s s' sp hk (auth_step s s' a ha hs)
   -- the quiet cases: all observations are quiet and pass, `hx` is untouched
   have quiet : (∀ c, (s'.chk c).execs = (s.chk c).execs) → s'.executing = s.executing →
       (∀ e ∈ obsStep s a s', e.quiet = true ∧ specStep sp e = none) →
@@ -158,20 +291,39 @@ theorem rel_step (s s' : St) (sp : SpecSt) (a : Act) (h : Rel s sp) (hp : a.isPa
     have hs0 := hs
     simp only [step] at hs; split at hs <;> simp at hs; subst hs
     have := same_hx_upd s c ((s.chk c).setActive b) (by assumption) rfl
-    exact quiet this.1 this.2 (by simp [obsStep])
+    exact ⟨by simp [obsStep, specTrace, specStep],
+      rel_known_irrel _ _ _ (rel_same_hx s _ sp _ h hp hs0 this.1 this.2)⟩
   | setPaused c b =>
     have hs0 := hs
     simp only [step] at hs; split at hs <;> simp at hs; subst hs
     have := same_hx_upd s c ((s.chk c).setPaused b) (by assumption) rfl
-    exact quiet this.1 this.2 (by simp [obsStep])
+    exact ⟨by simp [obsStep, specTrace, specStep],
+      rel_known_irrel _ _ _ (rel_same_hx s _ sp _ h hp hs0 this.1 this.2)⟩
   | objectHandler c =>
     have hs0 := hs
     simp only [step] at hs; split at hs <;> simp at hs; subst hs
     have := same_hx_upd s c (s.chk c).objectHandler (by assumption)
       (by unfold Chk.execs Chk.objectHandler Chk.idleInsert; grind)
-    refine quiet this.1 this.2 ?_
-    intro e he; simp only [obsStep, List.mem_singleton] at he; subst he
-    exact loc_ok _ sp hinv' c
+    have hrel : Rel (s.upd c (s.chk c).objectHandler) sp := rel_same_hx s _ sp _ h hp hs0 this.1 this.2
+    -- after the handler the specification knows `c`'s responsibility; the membership it then sees agrees with it
+    have hk1 := krel_objectHandler s sp c hk
+    have hloc := loc_ok (s.upd c (s.chk c).objectHandler)
+      { sp with known := (c, ((s.upd c (s.chk c).objectHandler).chk c).schedulable) :: dropKnown sp.known c } hinv' hk1 c
+    have hq := specTrace_quiet
+      { sp with known := (c, ((s.upd c (s.chk c).objectHandler).chk c).schedulable) :: dropKnown sp.known c }
+      [locOf (s.upd c (s.chk c).objectHandler) c] (by intro e he; simp at he; subst he; exact hloc)
+    constructor
+    · show specTrace sp ([Ev.authority c ((s.upd c (s.chk c).objectHandler).chk c).schedulable] ++
+        [locOf (s.upd c (s.chk c).objectHandler) c]) = none
+      exact specTrace_append sp _ _ (by simp [specTrace, specStep]) hq.1
+    · show Rel _ (specRun sp ([Ev.authority c ((s.upd c (s.chk c).objectHandler).chk c).schedulable] ++
+        [locOf (s.upd c (s.chk c).objectHandler) c]))
+      unfold specRun at hq ⊢
+      rw [List.foldl_append]
+      show Rel _ (List.foldl specNext _ [locOf (s.upd c (s.chk c).objectHandler) c])
+      rw [show List.foldl specNext (List.foldl specNext sp [Ev.authority c ((s.upd c (s.chk c).objectHandler).chk c).schedulable])
+        [locOf (s.upd c (s.chk c).objectHandler) c] = _ from hq.2]
+      exact rel_known_irrel _ _ _ hrel
   | setNextCheck c v =>
     have hs0 := hs
     simp only [step] at hs; split at hs <;> simp at hs; subst hs
@@ -184,7 +336,7 @@ theorem rel_step (s s' : St) (sp : SpecSt) (a : Act) (h : Rel s sp) (hp : a.isPa
       (by unfold Chk.execs Chk.nextCheckChanged; grind)
     refine quiet this.1 this.2 ?_
     intro e he; simp only [obsStep, List.mem_singleton] at he; subst he
-    exact loc_ok _ sp hinv' c
+    exact loc_ok _ sp hinv' (hk' rfl) c
   | force c =>
     have hs0 := hs
     simp only [step] at hs; split at hs <;> simp at hs; subst hs
@@ -209,7 +361,7 @@ theorem rel_step (s s' : St) (sp : SpecSt) (a : Act) (h : Rel s sp) (hp : a.isPa
           have : (s.chk c).forced = false := by
             unfold Chk.skips at hsk; cases hf : (s.chk c).forced <;> simp_all
           simp [specStep, this]
-        · exact loc_ok _ sp hinv' c
+        · exact loc_ok _ sp hinv' (hk' rfl) c
       · rename_i hsk
         simp at hs; subst hs
         have hsame := same_hx_upd s c (s.chk c).pick hc rfl
@@ -225,7 +377,7 @@ theorem rel_step (s s' : St) (sp : SpecSt) (a : Act) (h : Rel s sp) (hp : a.isPa
           simp [specStep, hnn, hcnt]
         · refine ⟨rfl, ?_⟩
           simp [specStep]
-        · exact loc_ok _ sp hinv' c
+        · exact loc_ok _ sp hinv' (hk' rfl) c
     · simp at hs
   | helperGuard c =>
     have hs0 := hs
@@ -314,7 +466,66 @@ theorem rel_step (s s' : St) (sp : SpecSt) (a : Act) (h : Rel s sp) (hp : a.isPa
       (by unfold Chk.execs Chk.helperFinish Chk.idleInsert; grind)
     refine quiet this.1 this.2 ?_
     intro e he; simp only [obsStep, List.mem_singleton] at he; subst he
-    exact loc_ok _ sp hinv' c
+    exact loc_ok _ sp hinv' (hk' rfl) c
+
+/-! ### the knowledge relation along a step -/
+
+def Ev.keepsKnown : Ev → Bool
+  | .opBegin _ => false
+  | .authority _ _ => false
+  | _ => true
+
+theorem specRun_known (sp : SpecSt) (l : List Ev) (h : ∀ e ∈ l, e.keepsKnown = true) :
+    (specRun sp l).known = sp.known := by
+  induction l generalizing sp with
+  | nil => rfl
+  | cons e es ih =>
+    have he := h e List.mem_cons_self
+    have : (specNext sp e).known = sp.known := by
+      cases e <;> simp [Ev.keepsKnown] at he <;> rfl
+    simp only [specRun, List.foldl]
+    have := ih (specNext sp e) (fun x hx => h x (List.mem_cons_of_mem _ hx))
+    simp only [specRun] at this
+    rw [this]; assumption
+
+theorem obs_keepsKnown (s s' : St) (a : Act) (ha : a.authOf = none) : ∀ e ∈ obsStep s a s', e.keepsKnown = true := by
+  intro e he
+  cases a <;> simp only [Act.authOf] at ha <;> simp only [obsStep, locOf] at he
+  all_goals (try split at he)
+  all_goals (try split at he)
+  all_goals simp at he
+  all_goals (try (rcases he with rfl | rfl | rfl))
+  all_goals (try (rcases he with rfl | rfl))
+  all_goals (try subst he)
+  all_goals first | rfl | (simp at ha)
+
+theorem krel_known_eq (s : St) (sp sp' : SpecSt) (h : KRel s sp) (hk : sp'.known = sp.known) : KRel s sp' := by
+  intro c b hb; rw [hk] at hb; exact h c b hb
+
+theorem krel_step (s s' : St) (sp : SpecSt) (a : Act) (hk : KRel s sp) (hs : step s a = some s') :
+    KRel s' (specRun sp (obsStep s a s')) := by
+  cases hauth : a.authOf with
+  | none =>
+    exact krel_known_eq s' sp _ (krel_of_auth s s' sp hk (auth_step s s' a hauth hs))
+      (specRun_known sp _ (obs_keepsKnown s s' a hauth))
+  | some c0 =>
+    cases a with
+    | setActive c b =>
+      simp only [step] at hs; split at hs <;> simp at hs; subst hs
+      exact krel_write s sp c _ hk
+    | setPaused c b =>
+      simp only [step] at hs; split at hs <;> simp at hs; subst hs
+      exact krel_write s sp c _ hk
+    | objectHandler c =>
+      simp only [step] at hs; split at hs <;> simp at hs; subst hs
+      have h1 := krel_objectHandler s sp c hk
+      refine krel_known_eq _ _ _ h1 ?_
+      show (specRun sp ([Ev.authority c ((s.upd c (s.chk c).objectHandler).chk c).schedulable] ++
+        [locOf (s.upd c (s.chk c).objectHandler) c])).known = _
+      unfold specRun
+      rw [List.foldl_append]
+      exact specRun_known _ [locOf (s.upd c (s.chk c).objectHandler) c] (by intro e he; simp at he; subst he; rfl)
+    | _ => simp [Act.authOf] at hauth
 
 /-- the quiescent snapshot of an invariant state passes -/
 theorem quiescent_ok (s : St) (sp : SpecSt) (h : Inv s) : specTrace sp (quiescentObs s) = none := by
@@ -334,7 +545,7 @@ theorem quiescent_ok (s : St) (sp : SpecSt) (h : Inv s) : specTrace sp (quiescen
     cases hi : (s.chk c).inIdle <;> cases hp : (s.chk c).inPending <;> cases hsc : (s.chk c).schedulable <;> simp_all
   · simp at hc
 
-theorem rel_run (acts : List Act) (s : St) (sp : SpecSt) (tr : List Ev) (h : Rel s sp)
+theorem rel_run (acts : List Act) (s : St) (sp : SpecSt) (tr : List Ev) (h : Rel s sp) (hk : KRel s sp)
     (hp : ∀ a ∈ acts, a.isPassive = false) (ht : traceOf s acts = some tr) : specTrace sp tr = none := by
   induction acts generalizing s sp tr with
   | nil =>
@@ -348,9 +559,9 @@ theorem rel_run (acts : List Act) (s : St) (sp : SpecSt) (tr : List Ev) (h : Rel
       | none => simp [hrest] at ht
       | some tr1 =>
         simp [hrest] at ht; subst ht
-        have hstep := rel_step s s1 sp a h (hp a List.mem_cons_self) hs1
+        have hstep := rel_step s s1 sp a h hk (hp a List.mem_cons_self) hs1
         exact specTrace_append sp _ _ hstep.1
-          (ih s1 _ tr1 hstep.2 (fun b hb => hp b (List.mem_cons_of_mem _ hb)) hrest)
+          (ih s1 _ tr1 hstep.2 (krel_step s s1 sp a hk hs1) (fun b hb => hp b (List.mem_cons_of_mem _ hb)) hrest)
     · simp at ht
 
 end Icinga.C04
